@@ -37,43 +37,34 @@ structure Heap where
   rules : Array HRule
   nextAid : Nat
 
-mutual
-/-- the `Expr` denoted by an object graph (fuel bounds the nesting of Alternation objects) -/
+/-- the `Expr` denoted by an object graph (fuel bounds the nesting depth; recursion on the fuel only, so that the kernel
+can evaluate it) -/
 def unfoldE (alts : Nat → Option AltObj) : Nat → HExpr → Expr
-  | _, .lit v cs => .lit v cs
-  | _, .range lo hi => .range lo hi
-  | _, .prose => .prose
-  | _, .ref r => .ref r
-  | f, .cat es => .cat (unfoldL alts f es)
-  | f, .rep cid mn mx e => .rep cid mn mx (unfoldE alts f e)
-  | 0, .altRef _ => .prose
+  | 0, _ => .prose
+  | _ + 1, .lit v cs => .lit v cs
+  | _ + 1, .range lo hi => .range lo hi
+  | _ + 1, .prose => .prose
+  | _ + 1, .ref r => .ref r
+  | f + 1, .cat es => .cat (es.map (unfoldE alts f))
+  | f + 1, .rep cid mn mx e => .rep cid mn mx (unfoldE alts f e)
   | f + 1, .altRef a =>
     match alts a with
-    | some o => .alt (unfoldL alts f o.members) o.first
+    | some o => .alt (o.members.map (unfoldE alts f)) o.first
     | none => .prose
-def unfoldL (alts : Nat → Option AltObj) : Nat → List HExpr → List Expr
-  | _, [] => []
-  | f, e :: es => unfoldE alts f e :: unfoldL alts f es
-end
 
-mutual
 /-- the Alternation objects reached while unfolding (same recursion) -/
 def altsOfE (alts : Nat → Option AltObj) : Nat → HExpr → List Nat
-  | _, .lit _ _ => []
-  | _, .range _ _ => []
-  | _, .prose => []
-  | _, .ref _ => []
-  | f, .cat es => altsOfL alts f es
-  | f, .rep _ _ _ e => altsOfE alts f e
-  | 0, .altRef a => [a]
+  | 0, _ => []
+  | _ + 1, .lit _ _ => []
+  | _ + 1, .range _ _ => []
+  | _ + 1, .prose => []
+  | _ + 1, .ref _ => []
+  | f + 1, .cat es => es.flatMap (altsOfE alts f)
+  | f + 1, .rep _ _ _ e => altsOfE alts f e
   | f + 1, .altRef a =>
     match alts a with
-    | some o => a :: altsOfL alts f o.members
+    | some o => a :: o.members.flatMap (altsOfE alts f)
     | none => [a]
-def altsOfL (alts : Nat → Option AltObj) : Nat → List HExpr → List Nat
-  | _, [] => []
-  | f, e :: es => altsOfE alts f e ++ altsOfL alts f es
-end
 
 /-- write the flag of Alternation object `a` -/
 def writeFlag (alts : Nat → Option AltObj) (a : Nat) (b : Bool) : Nat → Option AltObj :=
